@@ -135,7 +135,7 @@ Section FrameOps.
     assert (F0 : Frame s s0) by (repeat split; simpl; try lia; apply MonoL_ensure).
     change (postings s0) with (postings s).
     destruct (alookup k (postings s)) as [p|].
-    - destruct (negb (allow_dup cfg) && negb (memz id (ids_of p))); [exact F0|].
+    - match goal with |- context [if ?c then _ else _] => destruct c end; [exact F0|].
       destruct (memz id (ids_of p)); [exact F0|].
       match goal with |- context [if ?c then _ else _] => destruct c end; simpl snd.
       + eapply Frame_trans; [exact F0|]. eapply Frame_trans; [|apply Frame_bump].
